@@ -83,10 +83,15 @@ func GenStubs(h *HarnessSpec, stubs map[string]string, ov map[string][]byte) (*S
 		if err != nil {
 			return nil, err
 		}
-		if !strings.HasPrefix(st.pkg, RepoModule) {
+		var dir string
+		switch {
+		case h.AdHoc() && st.pkg == h.Pkg:
+			dir = h.PkgDir() // ad-hoc package: the target lives in the harness's own directory
+		case strings.HasPrefix(st.pkg, RepoModule):
+			dir = filepath.Join(RepoRoot, strings.TrimPrefix(st.pkg, RepoModule))
+		default:
 			return nil, fmt.Errorf("stub target %s is outside the repository: no native trampoline possible", t)
 		}
-		dir := filepath.Join(RepoRoot, strings.TrimPrefix(st.pkg, RepoModule))
 		ents, err := os.ReadDir(dir)
 		if err != nil {
 			return nil, err
